@@ -20,7 +20,9 @@ def funcs : List (String × String) := [
   ("internal/target/remote/connect.go:type mxConn", "0938ffdedf648f9d"),
   ("internal/target/remote/remote.go:Target.Close", "a42a23b96da6b8ed"),
   ("internal/target/remote/remote.go:Target.Start", "2d14a5510b0e30d0"),
-  ("internal/target/remote/remote.go:remoteDelivery.Close", "bf9edcac4df593d2")
+  ("internal/target/remote/remote.go:remoteDelivery.Abort", "001ea450df388c8a"),
+  ("internal/target/remote/remote.go:remoteDelivery.Close", "bf9edcac4df593d2"),
+  ("internal/target/remote/remote.go:remoteDelivery.Commit", "e3c71d719df70692")
 ]
 
 end MaddyVerif.Expect.FuncSkelC19
